@@ -167,6 +167,20 @@ def _is_intermediate(e, _memo=None):
     return False
 
 
+def _meta_rows(root):
+    """the largest number of rows any node of the LOGICAL plan declares in its meta (must be 0: a meta is an empty object)"""
+    import pandas as pd
+    n = 0
+    for e in root.walk():
+        try:
+            m = e._meta
+        except Exception:
+            continue
+        if isinstance(m, (pd.DataFrame, pd.Series, pd.Index)):
+            n = max(n, int(len(m)))
+    return n
+
+
 def walk_plan(low, stage, base):
     """one lowered plan: node lines (C06/C07) + graph line (C09)"""
     import dask
@@ -328,7 +342,7 @@ def replay(case):
         res = coll.compute(scheduler="sync")
         out.append(dict(base, kind="node", stage="logical-root", cls=type(root).__name__, np=int(root.npartitions), known=bool(known),
                         div=[_enc_label(d) for d in divs] if known else [], parts=[part_facts(p) for p in parts], decl=schema_of(root._meta),
-                        pschemas=[schema_of(p) for p in parts], has_result=True, rschema=schema_of(res), asserted=False, is_root=True))
+                        pschemas=[schema_of(p) for p in parts], has_result=True, rschema=schema_of(res), asserted=False, is_root=True, meta_rows=_meta_rows(root)))
         # metadata-only row counts
         if root.ndim > 0:
             pairs = [[int(len(coll)), int(len(res))]]
@@ -379,7 +393,8 @@ def replay_special(case):
         import pandas as pd
         out.append(dict(base, kind="node", stage="logical-root", cls=type(root).__name__, np=int(root.npartitions), known=bool(known),
                         div=[_enc_label(d) for d in divs] if known else [], parts=[part_facts(p) for p in parts], decl=schema_of(root._meta),
-                        pschemas=[schema_of(p) for p in parts if isinstance(p, (pd.DataFrame, pd.Series, pd.Index))], has_result=True, rschema=schema_of(res), asserted=False, is_root=True))
+                        pschemas=[schema_of(p) for p in parts if isinstance(p, (pd.DataFrame, pd.Series, pd.Index))], has_result=True, rschema=schema_of(res), asserted=False, is_root=True,
+                        meta_rows=_meta_rows(root)))
     except Exception as ex:
         out.append(dict(base, kind="root_error", err=f"{type(ex).__name__}: {ex}"[:200]))
     return {"lines": out}
